@@ -562,7 +562,26 @@ def filled_zone_cases(ctx):
     ctx.count("filled-grid zones meeting at run-time joins x fold x arguments", n)
 
 
+def translated_lookups(ctx):
+    """where a lookup gets its value, read from source on every run (harness/gen/spec_translate.py, fail-closed): the injection rule and the
+    run-time getters, both proved equal to Model.Inject.spec_lookup for every spec, kind and name"""
+    from gen import spec_translate
+    from vcommon import paths
+    name = "passes/inject_spec.py (InjectSpecRule) and dialects/spec/concrete.py (ArchSpecMethods) are inside the translated fragment (generated model Gen_C06_src.v)"
+    try:
+        body = spec_translate.generate(paths.REPO)
+    except Exception as e:
+        ctx.obligation(name, False, f"{type(e).__name__}: {e}"[:300])
+        return
+    ctx.obligation(name, True)
+    ok, log = coqrun.compile_lemma_file(ctx.bdir, "Gen_C06_src", body)
+    closed = log.count("Closed under the global context")
+    ctx.obligation("the translated injection rule and run-time getters equal spec_lookup (src_inject_rule_eq, src_runtime_lookup_eq), closed under the global context",
+                   ok and closed >= 3, log[-600:])
+
+
 def run(ctx):
+    translated_lookups(ctx)
     from bloqade.shuttle.arch import ArchSpecInterpreter
     from bloqade.shuttle.prelude import move
     S = c06_spec()
